@@ -17,6 +17,8 @@ CorruptDict(d) == CASE cor = "none" -> d
                     [] cor = "fragment-type" -> [d EXCEPT !.type = "otp"]          \* a fragment of the right word is still a wrong type
                     [] cor = "no-version" -> [d EXCEPT !.v = 0]
                     [] cor = "future-version" -> [d EXCEPT !.v = 99]
+                    [] cor = "old-version" -> [d EXCEPT !.v = 0 - 1]                  \* a revision older than the oldest one understood
+                    [] cor = "not-an-object" -> d                                  \* (JSON only: the text is not an object at all; see RoundTrip)
                     [] cor = "no-key" -> [d EXCEPT !.key = Absent]
                     [] OTHER -> d
 DupOf == [x \in {"dup-secret", "dup-issuer", "dup-digits", "dup-period", "dup-algorithm"} |->
@@ -33,12 +35,14 @@ CorruptUri(u) == CASE cor = "none" -> u
                    [] cor = "issuer-conflict" -> [u EXCEPT !.prefix = "other-issuer", !.params = Append(SelectSeq(u.params, LAMBDA p : p[1] # "issuer"), <<"issuer", "iss-x">>)]
                    [] OTHER -> u
 Applicable == IF fmt = "uri" THEN cor \in {"none", "bad-scheme", "bad-type", "fragment-type", "no-label", "no-key", "issuer-conflict"} \cup DOMAIN DupOf
-              ELSE cor \in {"none", "no-type", "bad-type", "fragment-type", "no-version", "future-version", "no-key"}
+              ELSE cor \in {"none", "no-type", "bad-type", "fragment-type", "no-version", "future-version", "old-version", "no-key"}
+                   \/ (fmt = "json" /\ cor = "not-an-object")
 
 RoundTrip ==
     /\ res = <<"pending">> /\ Applicable
     /\ res' = IF fmt = "uri"
               THEN (IF ToUri(o)[1] # "ok" THEN <<"ValueError-on-write">> ELSE FromUri(CorruptUri(ToUri(o)[2]), D))
+              ELSE IF cor = "not-an-object" THEN <<"ValueError">>
               ELSE FromDict(CorruptDict(ToDict(o, D)), D)
     /\ UNCHANGED <<o, D, fmt, cor, hist>>
 Next == RoundTrip
